@@ -37,6 +37,14 @@ def check_routing(log: List[dict], meta: Dict[str, Any], expected_client: Option
     routes = set()
     holders: List[str] = []     # clients whose latest claim was granted and who did not release
     mc = meta.get('mc') or {}
+    # a handler may be bound again at any time (also while its client holds the claim): the
+    # event then arrives at the handler bound last, never at one that was replaced
+    latest: Dict[Any, int] = {}
+    for rec in log:
+        if rec.get('kind') == 'bound':
+            latest[(rec['d']['port'], rec['d']['event'], rec['d'].get('client'), rec['seq'])] = \
+                rec['d']['gen']
+    bound_at = sorted((key[3], key[:3], gen) for key, gen in latest.items())
     for win in windows(log):
         call = win['call']['d']
         counts['stimuli'] += 1
@@ -72,6 +80,22 @@ def check_routing(log: List[dict], meta: Dict[str, Any], expected_client: Option
                                                   arrived_event=arr['event'],
                                                   same_port=arr['port'] == call['port'])))
             continue
+        if arr.get('gen') is not None:
+            at = arrivals[0]['seq']
+            current = None
+            for seq, key, gen in bound_at:
+                if seq < at and key == (arr['port'], arr['event'], arr.get('client')):
+                    current = gen
+            if current is not None:
+                counts['handler_generations_compared'] = \
+                    counts.get('handler_generations_compared', 0) + 1
+                if current > 1:
+                    counts['arrivals_at_a_handler_bound_again'] = \
+                        counts.get('arrivals_at_a_handler_bound_again', 0) + 1
+                if arr['gen'] != current:
+                    viols.append(('event-delivered-to-a-replaced-handler',
+                                  dict(detail, arrived_at_generation=arr['gen'],
+                                       bound_last=current, client=arr.get('client'))))
         routes.add((call['port'], call['event'], call['dir'], ident['semantics']))
         counts['args_compared'] += len(call['args'])
         if arr['args'] != call['args']:
